@@ -106,14 +106,10 @@ class _MemoryFile(io.RawIOBase):
         # type: () -> None
         pass
 
-    def __iter__(self):
-        # type: () -> typing.Iterator[bytes]
-        self._bytes_io.seek(self.pos)
-        for line in self._bytes_io:
-            yield line
-
     def next(self):
         # type: () -> bytes
+        if not self._mode.reading:
+            raise IOError("File not open for reading")
         with self._seek_lock():
             self.on_access()
             return next(self._bytes_io)
